@@ -2,6 +2,8 @@ package gvc
 
 import (
 	"bytes"
+	"regexp"
+	"sort"
 	"context"
 	"crypto/sha256"
 	"encoding/hex"
@@ -179,9 +181,12 @@ type solverSpec struct {
 }
 
 var solvers = []solverSpec{
-	{"z3-new", func(t int) []string { return []string{"z3-new", fmt.Sprintf("-t:%d", t), "-in"} }},
+	{"z3-new", func(t int) []string {
+		return []string{"z3-new", fmt.Sprintf("-t:%d", t), "smt.mbqi=false", "smt.auto_config=false", "-in"}
+	}},
+	{"z3-new-mbqi", func(t int) []string { return []string{"z3-new", fmt.Sprintf("-t:%d", t), "-in"} }},
 	{"cvc5", func(t int) []string { return []string{"cvc5", "--lang=smt2", fmt.Sprintf("--tlimit-per=%d", t), "--incremental"} }},
-	{"z3", func(t int) []string { return []string{"z3", fmt.Sprintf("-t:%d", t), "-in"} }},
+	{"z3", func(t int) []string { return []string{"z3", fmt.Sprintf("-t:%d", t), "smt.mbqi=false", "-in"} }},
 }
 
 var CacheDir = "/verif/.cache/smt"
@@ -226,15 +231,108 @@ func runSolver(sp solverSpec, query string, timeoutMs int) Answer {
 	return Answer{Result: res, Solver: sp.name, Ms: ms, Model: model, Raw: raw}
 }
 
+var fpLit = regexp.MustCompile(`\(fp #b([01]) #b([01]+) #b([01]+)\)`)
+var fpOps = []string{"fp.add", "fp.sub", "fp.mul", "fp.div", "fp.neg", "fp.abs", "fp.roundToIntegral", "fp.lt", "fp.leq", "fp.gt", "fp.geq", "fp.eq",
+	"fp.isNaN", "fp.isInfinite", "fp.isNegative", "fp.isPositive", "fp.isZero"}
+
+// AbstractFP rewrites a query so that binary64 is an uninterpreted sort
+// and every floating-point operation an uninterpreted function.  This is
+// a relaxation: unsat of the abstract query implies unsat of the original.
+// Returns "" when the query cannot be abstracted.
+func AbstractFP(q string) string {
+	if strings.Contains(q, "FloatingPoint 8 24") || !strings.Contains(q, "FloatingPoint 11 53") {
+		return ""
+	}
+	// drop the definitions that need real FP semantics
+	var lines []string
+	skip := 0
+	for _, ln := range strings.Split(q, "\n") {
+		if skip > 0 {
+			skip--
+			continue
+		}
+		switch {
+		case strings.HasPrefix(ln, "(define-fun f2i "):
+			skip = 3
+			lines = append(lines, "(declare-fun f2i (F64U) Int)")
+			continue
+		case strings.HasPrefix(ln, "(define-fun i2f "):
+			lines = append(lines, "(declare-fun i2f (Int) F64U)")
+			continue
+		case strings.HasPrefix(ln, "(declare-fun f2i_oor "):
+			continue
+		}
+		lines = append(lines, ln)
+	}
+	q = strings.Join(lines, "\n")
+	if strings.Contains(q, "to_fp") || strings.Contains(q, "fp.to_") {
+		return ""
+	}
+	consts := map[string]bool{}
+	q = fpLit.ReplaceAllStringFunc(q, func(m string) string {
+		sm := fpLit.FindStringSubmatch(m)
+		n := "fpc_" + sm[1] + "_" + sm[2] + "_" + sm[3]
+		consts[n] = true
+		return n
+	})
+	q = strings.ReplaceAll(q, "(_ FloatingPoint 11 53)", "F64U")
+	for _, op := range fpOps {
+		q = strings.ReplaceAll(q, "("+op+" ", "(u_"+strings.ReplaceAll(op, ".", "_")+" ")
+	}
+	var hdr strings.Builder
+	hdr.WriteString("(declare-sort F64U 0)\n(declare-sort RMU 0)\n(declare-fun RNE () RMU)\n(declare-fun RTZ () RMU)\n(declare-fun RTN () RMU)\n(declare-fun RTP () RMU)\n(declare-fun RNA () RMU)\n")
+	for _, op := range []string{"add", "sub", "mul", "div"} {
+		hdr.WriteString("(declare-fun u_fp_" + op + " (RMU F64U F64U) F64U)\n")
+	}
+	hdr.WriteString("(declare-fun u_fp_neg (F64U) F64U)\n(declare-fun u_fp_abs (F64U) F64U)\n(declare-fun u_fp_roundToIntegral (RMU F64U) F64U)\n")
+	for _, op := range []string{"lt", "leq", "gt", "geq", "eq"} {
+		hdr.WriteString("(declare-fun u_fp_" + op + " (F64U F64U) Bool)\n")
+	}
+	for _, op := range []string{"isNaN", "isInfinite", "isNegative", "isPositive", "isZero"} {
+		hdr.WriteString("(declare-fun u_fp_" + op + " (F64U) Bool)\n")
+	}
+	var cs []string
+	for c := range consts {
+		cs = append(cs, c)
+	}
+	sort.Strings(cs)
+	for _, c := range cs {
+		hdr.WriteString("(declare-fun " + c + " () F64U)\n")
+	}
+	// insert after (set-logic ALL)
+	return strings.Replace(q, "(set-logic ALL)\n", "(set-logic ALL)\n"+hdr.String(), 1)
+}
+
 // Solve discharges one query; tries solvers in order until a definite
 // answer. wantModel adds (get-model) after check-sat.
 func Solve(query string, timeoutMs int, wantModel bool) Answer {
+	return SolveC(query, timeoutMs, wantModel, UseCache)
+}
+
+func SolveC(query string, timeoutMs int, wantModel, useCache bool) Answer {
+	if !wantModel {
+		if aq := AbstractFP(query); aq != "" {
+			a := solve1c(aq, timeoutMs, false, useCache)
+			if a.Result == "unsat" {
+				a.Solver += "+fpabs"
+				return a
+			}
+		}
+	}
+	return solve1c(query, timeoutMs, wantModel, useCache)
+}
+
+func solve1(query string, timeoutMs int, wantModel bool) Answer {
+	return solve1c(query, timeoutMs, wantModel, UseCache)
+}
+
+func solve1c(query string, timeoutMs int, wantModel, useCache bool) Answer {
 	full := query + "\n(check-sat)\n"
 	if wantModel {
 		full += "(get-model)\n"
 	}
 	key := ""
-	if UseCache {
+	if useCache {
 		h := sha256.Sum256([]byte(fmt.Sprintf("%d|%v|", timeoutMs, wantModel) + full))
 		key = filepath.Join(CacheDir, hex.EncodeToString(h[:16]))
 		if b, err := os.ReadFile(key); err == nil {
@@ -254,9 +352,7 @@ func Solve(query string, timeoutMs int, wantModel bool) Answer {
 	var total int64
 	for i, sp := range solvers {
 		t := timeoutMs
-		if i > 0 {
-			t = timeoutMs / 2
-		}
+		_ = i
 		q := full
 		if sp.name == "cvc5" {
 			q = "(set-option :produce-models true)\n" + full
@@ -269,7 +365,7 @@ func Solve(query string, timeoutMs int, wantModel bool) Answer {
 		}
 	}
 	last.Ms = total
-	if UseCache && (last.Result == "unsat" || last.Result == "sat") {
+	if useCache {
 		os.MkdirAll(CacheDir, 0o755)
 		os.WriteFile(key, []byte(fmt.Sprintf("%s\n%s\n%d\n%s", last.Result, last.Solver, last.Ms, last.Model)), 0o644)
 	}
